@@ -128,6 +128,16 @@ Definition ops : list (string * (tree -> tree)) := [
   ("spec.columns_once", fun t =>
       ofB (columns_once_b (tB (tNth t 0)) (tB (tNth t 1)) (Z.to_nat (tZ (tNth t 2))) (tZ (tNth t 3))
                           (tList (tList tZ) (tNth t 4))));
+  (* [N?, W] -> the width a printed renderable is laid out at *)
+  ("print_width", fun t => I (print_render_width (tOZ (tNth t 0)) (tZ (tNth t 1))));
+  (* [N?, W, exact, [[w, lines], ...] (the frame rendered directly at candidate widths), printed lines] *)
+  ("spec.print_ok", fun t =>
+      let W := tZ (tNth t 1) in
+      let E := print_render_width (tOZ (tNth t 0)) W in
+      ofB (match find (fun e => tZ (tNth e 0) =? E) (tL (tNth t 3)) with
+           | Some e => print_ok_b E W (tB (tNth t 2)) (tStrs (tNth e 1)) (tStrs (tNth t 4))
+           | None => false
+           end));
   ("spec.same_render", fun t => ofB (same_render_b (tStrs (tNth t 0)) (tStrs (tNth t 1))));
   ("spec.same_grid", fun t => ofB (same_grid_b (tList (tList tZ) (tNth t 0)) (tList (tList tZ) (tNth t 1))));
   (* [[ [depth, label lines], ... ], lines] *)
